@@ -183,3 +183,49 @@ pub fn cookie_unparseable(_seed: u64) -> usize {
     }
     found
 }
+
+/// C14: a listener configured with a small maximum frame length must refuse longer frames
+pub fn limits(_seed: u64) -> usize {
+    use passage_protocol::listener::Listener;
+    use tokio::io::AsyncWriteExt;
+    use tokio::net::TcpStream;
+    use tokio_util::sync::CancellationToken;
+    let rt = tokio::runtime::Builder::new_multi_thread().worker_threads(2).enable_all().build().expect("rt");
+    let mut found = 0;
+    rt.block_on(async {
+        let stop = CancellationToken::new();
+        let stop2 = stop.clone();
+        let port = 39571u16;
+        let server = tokio::spawn(async move {
+            let mut l = Listener::new(
+                Arc::new(FixedStatusAdapter::default()),
+                Arc::new(FixedDiscoveryAdapter::new(vec![])),
+                Arc::new(Vec::<MetaFilterAdapter>::new()),
+                Arc::new(AnyStrategyAdapter::new()),
+                Arc::new(FixedAuthenticationAdapter::default()),
+                Arc::new(FixedLocalizationAdapter::default()),
+            )
+            .with_max_packet_length(64)
+            .with_connection_timeout(std::time::Duration::from_secs(3));
+            let _ = l.listen(("127.0.0.1", port), stop2).await.map_err(|e| e.to_string());
+        });
+        tokio::time::sleep(std::time::Duration::from_millis(300)).await;
+        let mut c = match TcpStream::connect(("127.0.0.1", port)).await { Ok(c) => c, Err(e) => { eprintln!("connect failed: {e}"); return; } };
+        // a 100+ byte handshake frame (status intent), then a status request
+        let long = "a".repeat(100);
+        let _ = c.write_packet(hand_in::HandshakePacket { protocol_version: 767, server_address: long, server_port: 25565, next_state: State::Status }).await;
+        let _ = c.write_packet(passage_packets::status::serverbound::StatusRequestPacket).await;
+        let _ = c.flush().await;
+        let got = tokio::time::timeout(std::time::Duration::from_secs(2), read_frame(&mut c)).await;
+        match got {
+            Ok(Ok((id, _))) => {
+                println!("REPRODUCED limits listener configured with max_packet_length=64 accepted a handshake frame of >100 bytes and answered with packet id {id:#x}");
+                found += 1;
+            }
+            _ => {}
+        }
+        stop.cancel();
+        let _ = tokio::time::timeout(std::time::Duration::from_secs(5), server).await;
+    });
+    found
+}
